@@ -6,9 +6,11 @@ kind rapid|plain|python, race, checks{tier}, shards{tier}, timeout{tier}.
 """
 
 def rapid(name, pkg, run, quick, thorough, shards=16, race=False, **kw):
+    # quick: `quick` cases in total, split over quick_shards processes; thorough: `thorough` cases in each of `shards` processes
+    qs = kw.pop("quick_shards", 1)
     u = {"name": name, "pkg": pkg, "run": run, "kind": "rapid", "race": race,
-         "checks": {"quick": quick, "thorough": thorough},
-         "shards": {"quick": 1, "thorough": shards}}
+         "checks": {"quick": -(-quick // qs), "thorough": thorough},
+         "shards": {"quick": qs, "thorough": shards}}
     u.update(kw)
     return u
 
@@ -251,7 +253,7 @@ PROPS["C13"] = {
 PROPS["C07"] = {
     "units": [
         rapid("subscription-machine", "rtpconn", "TestVerif_C07_SubscriptionMachine", 600, 4000, timeout={"quick": 900, "thorough": 3600}),
-        rapid("push-timer", "rtpconn", "TestVerif_C07_PushTimer", 60, 300, timeout={"quick": 900, "thorough": 3600}),
+        rapid("push-timer", "rtpconn", "TestVerif_C07_PushTimer", 96, 300, quick_shards=8, timeout={"quick": 900, "thorough": 3600}),
     ],
     "technique": "model-based stateful property testing (rapid) of the many-client signalling state machine with real pion offers/answers",
     "assumptions": ["publisher streams are real rtpUpConnections with fabricated tracks pushed through pushConnNow; the 200 ms coalescing timer of pushConn is bypassed",
